@@ -356,6 +356,11 @@ func toSMTPErr(err error) *smtp.SMTPError {
 	if ok {
 		res.EnhancedCode = ctxEnchCode
 	}
+	// exterrors.SMTPError reports its code as exterrors.EnhancedCode. Codes
+	// that are not set are skipped, DSN generation needs a valid status.
+	if extEnchCode, ok := ctxInfo["smtp_enchcode"].(exterrors.EnhancedCode); ok && extEnchCode[0] != 0 {
+		res.EnhancedCode = smtp.EnhancedCode(extEnchCode)
+	}
 	ctxMsg, ok := ctxInfo["smtp_msg"].(string)
 	if ok {
 		res.Message = ctxMsg
